@@ -37,6 +37,7 @@ VARS = [
  ("closeBeforeFlush", "the reporter was closed while deliveries were unflushed"),
  ("loopNotEnded", "a root Close returned while the report loop goroutine was still running"),
  ("errMismatch", "a root Close returned something else than the reporter's Close error (first closer) / nil (others)"),
+ ("boundsBad", "a histogram does not use exactly the bucket bounds (and kind) it was created with"),
  ("timerLog", "sequence of <<id, v>> timer deliveries"),
  ("timerOpen", "thread -> [id, v, seen]: Record call in progress"),
  ("timerBad", "a timer delivery outside a matching Record window, or a Record that returned without exactly one delivery"),
@@ -49,7 +50,7 @@ INIT = {
  "staleAfterPass": "FALSE", "objClosed": "{}", "objCloseDone": "{}", "closedAtCall": "<<>>", "rootClosedAtCall": "<<>>", "reacquiredClosed": "FALSE",
  "notInert": "FALSE", "gotObj": "<<>>", "objMismatch": "FALSE", "allocs": "<<>>", "rootCloseCalled": "{}",
  "rootCloseReturned": "{}", "closePromise": "<<>>", "barrierBroken": "FALSE", "unflushed": "FALSE", "callsAfterClose": "0",
- "reporterCloses": "0", "closeBeforeFlush": "FALSE", "loopNotEnded": "FALSE", "errMismatch": "FALSE",
+ "reporterCloses": "0", "closeBeforeFlush": "FALSE", "loopNotEnded": "FALSE", "errMismatch": "FALSE", "boundsBad": "FALSE",
  "timerLog": "<<>>", "timerOpen": "<<>>", "timerBad": "FALSE",
 }
 
@@ -110,6 +111,8 @@ ACTIONS = [
  ("ObsTimerReturn", "t", "Timer.Record returned to thread t",
   [("timerBad", "(timerBad \\/ t \\notin DOMAIN timerOpen \\/ timerOpen[t].seen # 1)"),
    ("timerOpen", "[x \\in DOMAIN timerOpen \\ {t} |-> timerOpen[x]]")], []),
+ ("ObsHistBounds", "wkind, wsorted, ukind, usorted", "a histogram was created with a bucket specification (kind, sorted bounds) and uses (kind, sorted bounds)",
+  [("boundsBad", "(boundsBad \\/ wkind # ukind \\/ wsorted # usorted)")], []),
  ("ObsCrash", "what", "a panic escaped the library or the scheduler found every goroutine blocked", [("crashed", "what")], []),
 ]
 
@@ -179,6 +182,9 @@ AllocateOnce == \A ka \in DOMAIN allocs : allocs[ka] <= 1
 
 (* C10 *)
 TimersSynchronousOnce == ~timerBad
+
+(* C20 *)
+KeepsOwnBounds == ~boundsBad
 =============================================================================
 '''
 
